@@ -224,6 +224,123 @@ fn check_unit(spec: &Spec, prefixes: &[Vec<f64>], t: usize, unit: f64, st: &mut 
     }
 }
 
+/// f32, value-like recursive views, constant tails: every ternary prefix up to `pdepth` followed by a
+/// constant tail (0 and 1) must end where the empty prefix ends (the DC response), to the f32 rounding
+/// floor, over the second half of the horizon. Exact ties between consecutive outputs - the states in
+/// which a shortcut keyed on "nothing changed" fires - are rare in f64 and common in f32, and need
+/// a run of equal inputs, which no periodic tail provides.
+fn check_flat_f32(spec: &Spec, pdepth: usize, t: usize, st: &mut Stats, sink: &Sink) {
+    use crate::scalar::Scalar;
+    st.configs += 1;
+    let run = |prefix: &[f64], c: f64| -> Result<Vec<Option<f64>>, String> {
+        guard(|| {
+            let mut v = build::<f32>(spec);
+            for x in prefix {
+                v.update(*x as f32);
+            }
+            let mut out = Vec::with_capacity(t);
+            for _ in 0..t {
+                v.update(c as f32);
+                out.push(v.last().map(|o| o.f()));
+            }
+            out
+        })
+    };
+    let prefixes = sequences_upto(&[0.0, 1.0, -1.0], pdepth);
+    for c in [0.0f64, 1.0] {
+        let Ok(base) = run(&[], c) else { return };
+        for p in &prefixes {
+            if p.is_empty() {
+                continue;
+            }
+            let out = match run(p, c) {
+                Ok(o) => o,
+                Err(m) => {
+                    let mut h = p.clone();
+                    h.extend(std::iter::repeat(c).take(60));
+                    sink.push(Violation::new("C09", spec, "panicked", "f32", &h, m));
+                    return;
+                }
+            };
+            st.transitions += (t + p.len()) as u64;
+            st.states += t as u64;
+            st.traces += 1;
+            for k in t / 2..t {
+                st.oracle_evals += 1;
+                let ok = match (out[k], base[k]) {
+                    (Some(a), Some(b)) => a.is_finite() && (a - b).abs() <= 2e-4,
+                    (None, None) => true,
+                    _ => false,
+                };
+                if !ok {
+                    let mut h = p.clone();
+                    h.extend(std::iter::repeat(c).take(200.min(k + 1)));
+                    sink.push(Violation::new("C09", spec, "fading-memory", "f32", &h, format!("streams with prefix {:?} and with no prefix share the constant tail {}; {} tail steps after they merged one reports {:?} and the other {:?}", p, c, k, out[k], base[k])).tag(&format!("N={}", spec.n)));
+                    return;
+                }
+            }
+        }
+    }
+}
+
+/// Coarse scalar (10-bit significand), value-like recursive views, zero tail: every ternary prefix up
+/// to `pdepth` followed by zeros. With so few significand bits two consecutive outputs are
+/// bit-identical at a turning point in a few per cent of the runs, so the enumeration reaches the
+/// states in which a shortcut keyed on "the output did not change" fires. On a zero tail floating
+/// point has no absolute rounding floor (errors scale with the values), so the unchanged recursion
+/// decays geometrically whatever the precision: at the end of the horizon the output must be below
+/// 1e-6 of the largest prefix value.
+fn check_zero_tail_coarse(spec: &Spec, pdepth: usize, t: usize, st: &mut Stats, sink: &Sink) {
+    use crate::lo::Lo;
+    use crate::scalar::Scalar;
+    st.configs += 1;
+    let prefixes = sequences_upto(&[0.0, 1.0, -1.0], pdepth);
+    for p in &prefixes {
+        if p.iter().all(|x| *x == 0.0) {
+            continue;
+        }
+        let r = guard(|| {
+            let mut v = build::<Lo>(spec);
+            for x in p {
+                v.update(Lo::of(*x));
+            }
+            let mut last = None;
+            let mut ties = 0u64;
+            let mut prev: Option<f64> = None;
+            for _ in 0..t {
+                v.update(Lo::of(0.0));
+                last = v.last().map(|o| o.f());
+                if last.is_some() && last == prev && last != Some(0.0) {
+                    ties += 1;
+                }
+                prev = last;
+            }
+            (last, ties)
+        });
+        st.transitions += (t + p.len()) as u64;
+        st.states += t as u64;
+        st.traces += 1;
+        st.oracle_evals += 1;
+        match r {
+            Ok((last, ties)) => {
+                st.bump("coarse_scalar_exact_ties_between_consecutive_outputs", ties);
+                if !matches!(last, Some(o) if o.is_finite() && o.abs() <= 1e-6) {
+                    let mut h = p.clone();
+                    h.extend(std::iter::repeat(0.0).take(200));
+                    sink.push(Violation::new("C09", spec, "fading-memory", Lo::NAME, &h, format!("after the prefix {:?} and {} zeros the view still reports {:?}: the prefix has not been forgotten", p, t, last)).tag(&format!("N={}", spec.n)));
+                    return;
+                }
+            }
+            Err(m) => {
+                let mut h = p.clone();
+                h.extend(std::iter::repeat(0.0).take(60));
+                sink.push(Violation::new("C09", spec, "panicked", Lo::NAME, &h, m));
+                return;
+            }
+        }
+    }
+}
+
 /// (a') boundedness across quiet stretches: a lively stretch, L identical values, a lively stretch
 /// again. The documented bound must hold at every step whatever L is (a normaliser that lags
 /// behind its numerator gives a bound that grows with the length of the quiet stretch).
@@ -377,6 +494,41 @@ pub fn run(ctx: &Ctx) -> CheckOutput {
                 let sink = Sink::new();
                 check_unit(&spec, &prefixes, t, unit, &mut st, &sink);
                 JobOut { stats: st, viols: sink.take(), samples: vec![json!({"view":spec.name(),"prefixes":prefixes.len(),"tails":"the three periodic tails x 2^-70","T":t})] }
+            }));
+        }
+    }
+    // the coarse scalar on a zero tail: ties between consecutive outputs become reachable
+    for n in if quick { (2usize..=16).collect::<Vec<_>>() } else { (2..=40).collect() } {
+        for spec in [Spec::un(Kind::SuperSmoother, n, Spec::echo()), Spec::un(Kind::Ema, n, Spec::echo()), Spec::roofing(n, 2, Spec::echo()), Spec::un(Kind::CyberCycle, n, Spec::echo())] {
+            let pdepth = if quick { 5 } else { 7 };
+            let t = horizon_for(&spec, 600, 1e-12).min(6000);
+            jobs.push(Box::new(move || {
+                let mut st = Stats::default();
+                let sink = Sink::new();
+                check_zero_tail_coarse(&spec, pdepth, t, &mut st, &sink);
+                JobOut { stats: st, viols: sink.take(), samples: vec![json!({"view":spec.name(),"scalar":"Lo (10-bit significand)","prefixes":format!("every ternary sequence up to length {}", pdepth),"tail":"zeros","T":t})] }
+            }));
+        }
+    }
+    for g in [0.0, 0.5, 0.8] {
+        let spec = Spec::unp(Kind::LaguerreFilter, 0, vec![g], Spec::echo());
+        jobs.push(Box::new(move || {
+            let mut st = Stats::default();
+            let sink = Sink::new();
+            check_zero_tail_coarse(&spec, if quick { 5 } else { 7 }, 1500, &mut st, &sink);
+            JobOut { stats: st, viols: sink.take(), samples: vec![] }
+        }));
+    }
+    // f32 on constant tails, deeper prefixes, the value-like members
+    for n in if quick { (2usize..=12).collect::<Vec<_>>() } else { (2..=32).collect() } {
+        for spec in [Spec::un(Kind::SuperSmoother, n, Spec::echo()), Spec::un(Kind::Ema, n, Spec::echo()), Spec::roofing(n, 2, Spec::echo()), Spec::un(Kind::CyberCycle, n, Spec::echo())] {
+            let pdepth = if quick { 6 } else { 8 };
+            let t = horizon_for(&spec, 600, 1e-9).min(4000);
+            jobs.push(Box::new(move || {
+                let mut st = Stats::default();
+                let sink = Sink::new();
+                check_flat_f32(&spec, pdepth, t, &mut st, &sink);
+                JobOut { stats: st, viols: sink.take(), samples: vec![json!({"view":spec.name(),"scalar":"f32","prefixes":format!("every ternary sequence up to length {}", pdepth),"tails":"constant 0 and 1","T":t})] }
             }));
         }
     }
